@@ -229,6 +229,10 @@ def runOp (op : String) (a : List String) : Option String :=
     -- IsCompressedPubKey: 33 bytes and first byte 02/03 (a pure predicate on the bytes, whether or not they parse)
     let ic := b.length == 33 && (b.headD 0 &&& 0xFE) == 2
     pure ((match Ecdsa.parsePubKey b with | some q => "ok " ++ ptStr q | none => "err") ++ " C=" ++ b2s ic)
+  | "parsepub.seq", [hs] => do
+    let bs ← (hs.splitOn ",").mapM unhex
+    pure ("ok" ++ String.join (bs.map fun b =>
+      " " ++ (match Ecdsa.parsePubKey b with | some q => nhx q.1 ++ ":" ++ nhx q.2 | none => "err")))
   | "serpub", [x, y] => do
     let x ← unnat x; let y ← unnat y
     pure ("ok " ++ hx (Ecdsa.serUncompressed (x,y)) ++ " " ++ hx (Ecdsa.serCompressed (x,y)) ++ " " ++
